@@ -323,7 +323,16 @@ def run_case(case):
                 from forsys import tessellation
                 n = int(rng.integers(8, 60))
                 pts = rng.uniform(0, 30, (n, 2))
-                centres = [tuple(p) for p in pts]
+                if case["seed"][2] % 3 == 0:
+                    # regular centre sets: exactly vertical / horizontal ridges
+                    m_, k_ = int(rng.integers(3, 9)), int(rng.integers(3, 9))
+                    a_ = float(rng.choice([1.0, 2.0, 5.0]))
+                    if case["seed"][2] % 2:
+                        pts = np.array([(i * a_, j * a_) for i in range(m_) for j in range(k_)], float)
+                    else:
+                        pts = np.array([((i + 0.5 * (j % 2)) * a_, j * a_ * np.sqrt(3) / 2) for i in range(m_) for j in range(k_)], float)
+                    hist["tess-regular-centres"] = 1
+                centres = [tuple(float(x_) for x_ in p) for p in pts]
                 if rng.random() < 0.5:
                     centres = centres + tessellation.add_voronoi_centers(centres)
                 import scipy.spatial as _sp
